@@ -166,9 +166,22 @@ func httpSeeds(listener string, port int, transport string, specs []httpSeedSpec
 
 func one(b []byte) [][]byte { return [][]byte{b} }
 
+// request-target forms other than origin-form (RFC 9112 3.2): absolute-form with and without a path, authority-form,
+// asterisk-form. All are syntactically valid requests.
+func targetFormSeeds(listener string, port int, transport string, path string, thorough bool) []*Seed {
+	raw := func(line string) [][]byte { return one([]byte(line + "\r\nHost: 127.0.0.1\r\n\r\n")) }
+	return httpSeeds(listener, port, transport, []httpSeedSpec{
+		{"target-absolute-form", thorough, raw("GET http://127.0.0.1" + path + " HTTP/1.1")},
+		{"target-absolute-form-no-path", thorough, raw("GET http://127.0.0.1 HTTP/1.1")},
+		{"target-absolute-form-query-only", true, raw("GET http://127.0.0.1?x=1 HTTP/1.1")},
+		{"target-authority-form", thorough, raw("CONNECT 127.0.0.1:80 HTTP/1.1")},
+		{"target-asterisk-form", thorough, raw("OPTIONS * HTTP/1.1")},
+	})
+}
+
 func apiSeeds() []*Seed {
 	wrong := basicAuth("admin", "wrongpass")
-	return httpSeeds("api", pAPI, tTCP, []httpSeedSpec{
+	return append(targetFormSeeds("api", pAPI, tTCP, "/v3/info", false), httpSeeds("api", pAPI, tTCP, []httpSeedSpec{
 		{"paths-list", false, one(httpReq("GET", "/v3/paths/list?itemsPerPage=10&page=0", []string{"Accept: */*"}, ""))},
 		{"paths-list-basic", false, one(httpReq("GET", "/v3/paths/list", []string{wrong}, ""))},
 		{"config-get-bearer", true, one(httpReq("GET", "/v3/config/global/get", []string{"Authorization: Bearer abc.def.ghi"}, ""))},
@@ -184,40 +197,39 @@ func apiSeeds() []*Seed {
 			httpReq("POST", "/v3/rtspsessions/kick/"+someUUID, []string{"Connection: keep-alive"}, ""),
 			httpReq("GET", "/v3/recordings/get/x?user=a&pass=b", []string{"X-Forwarded-For: 10.0.0.1"}, ""),
 		}},
-		{"absolute-form", true, one([]byte("GET http://127.0.0.1/v3/info HTTP/1.1\r\nHost: 127.0.0.1\r\n\r\n"))},
 		{"http10-expect", true, one([]byte("POST /v3/auth/jwks/refresh HTTP/1.0\r\nExpect: 100-continue\r\nContent-Length: 2\r\n\r\n{}"))},
-	})
+	})...)
 }
 
 func metricsSeeds() []*Seed {
-	return httpSeeds("metrics", pMetrics, tTCP, []httpSeedSpec{
+	return append(targetFormSeeds("metrics", pMetrics, tTCP, "/metrics", false), httpSeeds("metrics", pMetrics, tTCP, []httpSeedSpec{
 		{"metrics", false, one(httpReq("GET", "/metrics?type=paths&path=cam", nil, ""))},
 		{"metrics-basic", true, one(httpReq("GET", "/metrics", []string{basicAuth("u", "p")}, ""))},
 		{"metrics-head", true, one(httpReq("HEAD", "/metrics?rtsp_session=x", []string{"Accept-Encoding: gzip"}, ""))},
-	})
+	})...)
 }
 
 func pprofSeeds() []*Seed {
-	return httpSeeds("pprof", pPprof, tTCP, []httpSeedSpec{
+	return append(targetFormSeeds("pprof", pPprof, tTCP, "/debug/pprof/", false), httpSeeds("pprof", pPprof, tTCP, []httpSeedSpec{
 		{"index", false, one(httpReq("GET", "/debug/pprof/", nil, ""))},
 		{"goroutine", true, one(httpReq("GET", "/debug/pprof/goroutine?debug=2", []string{basicAuth("u", "p")}, ""))},
 		{"profile", true, one(httpReq("GET", "/debug/pprof/profile?seconds=1", nil, ""))},
 		{"symbol-post", true, one(httpReq("POST", "/debug/pprof/symbol", nil, "0x1+0x2"))},
-	})
+	})...)
 }
 
 func playbackSeeds() []*Seed {
-	return httpSeeds("playback", pPlayback, tTCP, []httpSeedSpec{
+	return append(targetFormSeeds("playback", pPlayback, tTCP, "/list?path=x", false), httpSeeds("playback", pPlayback, tTCP, []httpSeedSpec{
 		{"list", false, one(httpReq("GET", "/list?path=cam&start=2024-01-01T00%3A00%3A00Z&end=2024-01-02T00%3A00%3A00Z", nil, ""))},
 		{"get", false, one(httpReq("GET", "/get?path=cam&start=2024-01-01T00%3A00%3A00%2B01%3A00&duration=12.5&format=mp4",
 			[]string{"Range: bytes=0-100"}, ""))},
 		{"get-basic", true, one(httpReq("GET", "/get?path=cam&start=x&duration=1s", []string{basicAuth("u", "p")}, ""))},
 		{"list-jwt-query", true, one(httpReq("GET", "/list?path=a/b&jwt=aaa.bbb.ccc", nil, ""))},
-	})
+	})...)
 }
 
 func hlsSeeds() []*Seed {
-	return httpSeeds("hls", pHLS, tTCP, []httpSeedSpec{
+	return append(targetFormSeeds("hls", pHLS, tTCP, "/cam/index.m3u8", false), httpSeeds("hls", pHLS, tTCP, []httpSeedSpec{
 		{"index-m3u8", false, one(httpReq("GET", "/cam/index.m3u8", []string{"Accept: */*"}, ""))},
 		{"index-m3u8-cookiecheck", false, one(httpReq("GET", "/cam/index.m3u8?cookieCheck=1&user=a&pass=b",
 			[]string{"Cookie: cookieCheck=1; mtx_hls_session=" + someUUID}, ""))},
@@ -230,11 +242,11 @@ func hlsSeeds() []*Seed {
 		{"cdn-bearer", true, one(httpReq("GET", "/cam/index.m3u8", []string{"Authorization: Bearer cdnsecret", "X-Forwarded-For: 1.2.3.4"}, ""))},
 		{"post", true, one(httpReq("POST", "/cam/index.m3u8", nil, "x"))},
 		{"preflight", true, one(httpReq("OPTIONS", "/cam/index.m3u8", []string{"Origin: http://a", "Access-Control-Request-Method: GET"}, ""))},
-	})
+	})...)
 }
 
 func webrtcSeeds() []*Seed {
-	return httpSeeds("webrtc", pWebRTC, tTCP, []httpSeedSpec{
+	return append(targetFormSeeds("webrtc", pWebRTC, tTCP, "/cam/whep", false), httpSeeds("webrtc", pWebRTC, tTCP, []httpSeedSpec{
 		{"whip-options", false, one(httpReq("OPTIONS", "/cam/whip", nil, ""))},
 		{"whip-post", false, one(httpReq("POST", "/cam/whip?user=a", []string{"Content-Type: application/sdp", "User-Agent: verif"}, sdpOffer))},
 		{"whep-post-bearer", false, one(httpReq("POST", "/cam/sub/whep", []string{"Content-Type: application/sdp", "Authorization: Bearer a:b"}, sdpOffer))},
@@ -249,16 +261,16 @@ func webrtcSeeds() []*Seed {
 		{"whip-post-chunked", true, one(httpReq("POST", "/cam/whip", []string{"Content-Type: application/sdp", "Transfer-Encoding: chunked"},
 			"5\r\nv=0\r\n\r\n0\r\n\r\n"))},
 		{"preflight", true, one(httpReq("OPTIONS", "/cam/whip", []string{"Origin: http://a", "Access-Control-Request-Method: POST"}, ""))},
-	})
+	})...)
 }
 
 func moqHTTPSeeds() []*Seed {
-	return httpSeeds("moq-http2", pMoQHTTP, tTLS, []httpSeedSpec{
+	return append(targetFormSeeds("moq-http2", pMoQHTTP, tTLS, "/cam/", true), httpSeeds("moq-http2", pMoQHTTP, tTLS, []httpSeedSpec{
 		{"authmirror", true, one(httpReq("GET", "/authmirror", []string{basicAuth("u", "p")}, ""))},
 		{"fingerprint", true, one(httpReq("GET", "/cam/fingerprint", nil, ""))},
 		{"page-read", true, one(httpReq("GET", "/cam/", nil, ""))},
 		{"page-publish", true, one(httpReq("GET", "/cam/publish?user=a&pass=b", nil, ""))},
-	})
+	})...)
 }
 
 // ---- RTSP ----
@@ -358,6 +370,16 @@ func rtspSeeds(listener string, port int, transport string, thoroughOnly bool) [
 				"Transport": base.HeaderValue{"RTP/AVP/TCP;unicast;interleaved=0-1"}, "Authorization": base.HeaderValue{digest}}, nil)),
 		),
 	}
+	// request URLs without a path
+	noPath := "rtsp://127.0.0.1:8554"
+	seeds = append(seeds,
+		mk("describe-no-path", false, tm("DESCRIBE", rtspReq(base.Describe, noPath, base.Header{"CSeq": cseq(1)}, nil))),
+		mk("announce-no-path", false, tm("ANNOUNCE", rtspReq(base.Announce, noPath, base.Header{"CSeq": cseq(1),
+			"Content-Type": base.HeaderValue{"application/sdp"}}, sdp))),
+		mk("setup-no-path", false, tm("SETUP", rtspReq(base.Setup, noPath, base.Header{"CSeq": cseq(1),
+			"Transport": base.HeaderValue{"RTP/AVP/TCP;unicast;interleaved=0-1"}}, nil))),
+		mk("options-asterisk", true, Msg{Name: "OPTIONS", Data: []byte("OPTIONS * RTSP/1.0\r\nCSeq: 1\r\n\r\n")}),
+	)
 	// a response where a request is expected
 	seeds = append(seeds, mk("response-from-client", true, Msg{Name: "response", Data: []byte("RTSP/1.0 200 OK\r\nCSeq: 1\r\n\r\n")}))
 
